@@ -72,7 +72,22 @@ ASSUMPTIONS = [
 READER_NS = "basilisp.lang.reader"
 LOC_NAMES = ("line", "col", "end-line", "end-col")
 
-CONFIGS = [(d, m, n) for d in (False, True) for m in (False, True) for n in (False, True)]
+class Cfg(tuple):
+    """(print-dup, print-meta, print-namespace-maps) + .plen = value of *print-length* (None = nil).  Under *print-dup*
+    the printer ignores *print-length* (it still claims a readable, complete rendering), so dup=true x length in {0, 1}
+    belongs to the combinations that claim readability."""
+
+    def __new__(cls, d, m, n, plen=None):
+        o = tuple.__new__(cls, (d, m, n))
+        o.plen = plen
+        return o
+
+    def __reduce__(self):
+        return (Cfg, (self[0], self[1], self[2], self.plen))
+
+
+CONFIGS = [Cfg(d, m, n) for d in (False, True) for m in (False, True) for n in (False, True)]
+CONFIGS += [Cfg(True, False, False, 0), Cfg(True, True, True, 1), Cfg(True, False, True, 0), Cfg(True, True, False, 1)]
 PATHS = ("lang", "core")
 
 STR_ALPHABET = ["a", '"', "\\", "\n", "\t", "\x00", "\x1f", "\x7f", "é", "中", "\U0001f600", " ", "f", "0"]
@@ -359,7 +374,7 @@ def printers(path, cfg):
 
         def pr(v):
             return lobj.lrepr(
-                v, human_readable=False, print_dup=d, print_length=None, print_level=None, print_meta=m,
+                v, human_readable=False, print_dup=d, print_length=getattr(cfg, "plen", None), print_level=None, print_meta=m,
                 print_namespace_maps=n, print_readably=True,
             )
 
@@ -367,7 +382,8 @@ def printers(path, cfg):
             return list(reader.read_str(s))
 
         return pr, rd
-    key = (os.getpid(), cfg)
+    plen = getattr(cfg, "plen", None)
+    key = (os.getpid(), tuple(cfg), plen)
     if key not in _CORE:
         ev = _CORE.get(("ev", os.getpid()))
         if ev is None:
@@ -375,7 +391,7 @@ def printers(path, cfg):
         b = lambda x: "true" if x else "false"  # noqa
         pr = ev.eval(
             f"(fn [v] (binding [*print-dup* {b(d)} *print-meta* {b(m)} *print-namespace-maps* {b(n)} "
-            "*print-readably* true *print-length* nil *print-level* nil] (pr-str v)))"
+            f"*print-readably* true *print-length* {'nil' if plen is None else plen} *print-level* nil] (pr-str v)))"
         )
         rd1 = ev.eval("(fn [s] (read-string s))")
         _CORE[key] = (pr, lambda s: [rd1(s)])
@@ -510,7 +526,7 @@ def check_case(res: Result, spec, v, cfg, path, record=True):
     res.outcomes.add((path, cfg, problems[0] if problems else "ok", type(back[0]).__name__ if back else "-"))
     if not problems:
         return None
-    case = {"spec": json.dumps(spec), "dup": d, "meta": m, "nsmaps": n, "path": path, "family": spec[0]}
+    case = {"spec": json.dumps(spec), "dup": d, "meta": m, "nsmaps": n, "plen": getattr(cfg, "plen", None), "path": path, "family": spec[0]}
     f = {"kind": problems[0], "case": case, "problems": problems}
     f.update(details)
     tag = explain(spec, cfg, problems, back, details)
@@ -900,7 +916,7 @@ def _run_shard(args):
         return res.compact()
     if kind == "scalars":
         _, lo, hi, paths = args
-        cfg = (False, False, False)
+        cfg = Cfg(False, False, False)
         n = 0
         for path in paths:
             pr, rd = printers(path, cfg)
@@ -1048,7 +1064,7 @@ def run(tier, seed):
 def replay(failure):
     case = failure["case"]
     spec = T(json.loads(case["spec"]))
-    cfg = (bool(case["dup"]), bool(case["meta"]), bool(case["nsmaps"]))
+    cfg = Cfg(bool(case["dup"]), bool(case["meta"]), bool(case["nsmaps"]), case.get("plen"))
     if failure["kind"] == "print-depends-on-hash-seed":
         theirs = collect_seed_child(spawn_seed_child("quick", case.get("hashseed", 1), [spec]))[0]
         mine = seed_texts("quick", [spec])[0]
